@@ -216,6 +216,11 @@ def ChatWorld.run (w : ChatWorld) : List ChatEv → ChatWorld × List (List Out)
   | [] => (w, [])
   | e :: es => (((w.step e).1.run es).1, (w.step e).2 :: ((w.step e).1.run es).2)
 
+/-- The history as it is delivered: for every event the client table it was handled on and its outputs. -/
+def ChatWorld.trace (w : ChatWorld) : List ChatEv → List (Registry × List Out)
+  | [] => []
+  | e :: es => (w.reg, (w.step e).2) :: (w.step e).1.trace es
+
 def ChatWorld.after (w : ChatWorld) (es : List ChatEv) : ChatWorld := es.foldl (fun w e => (w.step e).1) w
 
 /-- `sendTransaction`: the connection (if any) that holds the addressed id. -/
